@@ -196,9 +196,7 @@ pub fn run(args: &Args) {
     let seed = args.num("seed", 1);
     let runs = args.num("runs", 20);
     let only = args.get("only-run").map(|s| s.parse::<u64>().unwrap());
-    let mut f = std::fs::File::create(args.req("trace")).expect("trace file");
-    let mut index = vec![];
-    let mut line_no = 0u64;
+    let chunks = args.num("chunks", 1).max(1);
     let t = Timer::start();
     let mut all: Vec<(u64, Vec<Value>)> = vec![];
     for r in 0..runs {
@@ -210,35 +208,44 @@ pub fn run(args: &Args) {
         }
         all.push((r, one_run(&mut rng, args.num("large-every", 0) > 0 && r % args.num("large-every", 1) == 0)));
     }
-    // header: the id universes of the whole trace (constants of the trace specification)
-    let mut ids: BTreeSet<u32> = BTreeSet::new();
-    let mut recs: [BTreeSet<u32>; 3] = Default::default();
-    for (_, ev) in &all {
-        for e in ev {
-            match e["e"].as_str().unwrap_or("") {
-                "NewTerm" => {
-                    ids.insert(as_u32(&e["id"]));
+    // one trace file per chunk (validated by parallel TLC processes); each starts with a header
+    // line: the id universes of its runs (constants of the trace specification)
+    let mut index = vec![];
+    let mut total = 0u64;
+    for c in 0..chunks {
+        let mine: Vec<&(u64, Vec<Value>)> = all.iter().enumerate().filter(|(i, _)| (*i as u64) % chunks == c).map(|(_, x)| x).collect();
+        let path = if chunks == 1 { args.req("trace").to_string() } else { format!("{}.{}", args.req("trace"), c) };
+        let mut f = std::fs::File::create(&path).expect("trace file");
+        let mut ids: BTreeSet<u32> = BTreeSet::new();
+        let mut recs: [BTreeSet<u32>; 3] = Default::default();
+        for (_, ev) in &mine {
+            for e in ev {
+                match e["e"].as_str().unwrap_or("") {
+                    "NewTerm" => {
+                        ids.insert(as_u32(&e["id"]));
+                    }
+                    "AddRecord" | "Annotate" => {
+                        recs[Kind::parse(e["k"].as_str().unwrap()) as usize].insert(as_u32(&e["x"]));
+                    }
+                    _ => {}
                 }
-                "AddRecord" | "Annotate" => {
-                    recs[Kind::parse(e["k"].as_str().unwrap()) as usize].insert(as_u32(&e["x"]));
-                }
-                _ => {}
             }
         }
-    }
-    writeln!(f, "{}", json!({"e": "Header", "ids": ids, "gene": recs[0], "omim": recs[1], "orpha": recs[2]})).unwrap();
-    line_no += 1;
-    for (r, ev) in all {
-        writeln!(f, "{}", json!({"e": "Reset", "run": r})).unwrap();
-        line_no += 1;
-        let start = line_no;
-        for e in &ev {
-            writeln!(f, "{}", e).unwrap();
+        writeln!(f, "{}", json!({"e": "Header", "ids": ids, "gene": recs[0], "omim": recs[1], "orpha": recs[2]})).unwrap();
+        let mut line_no = 1u64;
+        for (r, ev) in mine {
+            writeln!(f, "{}", json!({"e": "Reset", "run": r})).unwrap();
             line_no += 1;
+            let start = line_no;
+            for e in ev {
+                writeln!(f, "{}", e).unwrap();
+                line_no += 1;
+            }
+            index.push(json!({"run": r, "chunk": c, "first_line": start, "last_line": line_no, "events": ev.len()}));
         }
-        index.push(json!({"run": r, "first_line": start, "last_line": line_no, "events": ev.len()}));
+        total += line_no;
     }
-    let summary = json!({"cases": index.len(), "evaluations": line_no, "nontrivial": index.len(), "counters": {}, "samples": [], "violations": [],
-                         "extra": {"runs": index, "seed": seed, "wall_s": t.secs()}});
+    let summary = json!({"cases": index.len(), "evaluations": total, "nontrivial": index.len(), "counters": {}, "samples": [], "violations": [],
+                         "extra": {"runs": index, "seed": seed, "chunks": chunks, "wall_s": t.secs()}});
     std::fs::write(args.req("out"), serde_json::to_string(&summary).unwrap()).unwrap();
 }
